@@ -1,4 +1,5 @@
 import TaskctlVerif.Proofs.Output
+import TaskctlVerif.Proofs.CockpitLocks
 /-!
 # C19 — output decoration never loses or mixes task output; format is presentation only
 
@@ -182,3 +183,95 @@ example : tokens [97, 13, 10, 98, 10, 10, 99] = [[97], [98], [99]] := by decide
 example : (prefixedCalls id [119] [[97, 10, 98], [99, 10]]).length = 3 := by decide
 
 end Out
+
+/-! ## "no task outcome makes the output layer hang": the two locks of the cockpit -/
+namespace CockpitLocks
+
+/-- **whoever holds the cockpit's lock can always take its next step** - it never waits for the spinner's lock (nor for
+anything else) while holding it, in every state reachable under any interleaving of the redraw goroutine, any number
+of adds / removes / waits, the first add and the closing goroutine -/
+theorem C19_cockpit_lock_holder_moves (os : List Owner) (o : Owner) (h : (run init os).b = some o) :
+    (next (run init os) o).isSome = true := by
+  have hi := inv_run os init inv_init
+  obtain ⟨_, _, _, _, bR, bC, bA, bF⟩ := hi
+  cases o with
+  | redraw => have := bR.mp h; simp [next, this]
+  | closer => have := bC.mp h; simp [next, this]
+  | adder => have := bA.mp h; simp [next, this]
+  | fin i => have := (bF i).mp h; simp [next, this]
+
+/-- with the cockpit's lock free, whoever holds the spinner's lock can take its next step -/
+theorem spinner_holder_moves (σ : St) (hi : Inv σ) (o : Owner) (hs : σ.s = some o) (hb : σ.b = none) :
+    (next σ o).isSome = true := by
+  obtain ⟨sR, sC, sA, sF, bR, bC, bA, bF⟩ := hi
+  cases o with
+  | redraw =>
+    have hr := sR.mp hs
+    have hd : σ.r ≠ .drain := fun h => by have := bR.mpr h; rw [hb] at this; cases this
+    cases h : σ.r <;> simp_all [next]
+  | closer => have := sC.mp hs; simp [next, this]
+  | adder => have := sA.mp hs; simp [next, this]
+  | fin i => exact absurd hs (sF i)
+
+/-- **No deadlock**: in every reachable state in which an add, a remove, a wait or the closing goroutine has not
+finished, some thread can take a step. A task that finishes - whatever its outcome - while the indicator is being
+redrawn is never stuck behind it, and neither is `Close`. -/
+theorem C19_cockpit_no_deadlock (os : List Owner) (n : Nat) (hp : pending (run init os) n) :
+    ∃ o, (next (run init os) o).isSome = true := by
+  have hi := inv_run os init inv_init
+  generalize run init os = σ at hi hp
+  cases hb : σ.b with
+  | some o =>
+    -- the holder of B moves
+    obtain ⟨_, _, _, _, bR, bC, bA, bF⟩ := hi
+    refine ⟨o, ?_⟩
+    cases o with
+    | redraw => have := bR.mp hb; simp [next, this]
+    | closer => have := bC.mp hb; simp [next, this]
+    | adder => have := bA.mp hb; simp [next, this]
+    | fin i => have := (bF i).mp hb; simp [next, this]
+  | none =>
+    cases hs : σ.s with
+    | some o => exact ⟨o, spinner_holder_moves σ hi o hs hb⟩
+    | none =>
+      -- both locks free: a pending thread is at a point where it can go on
+      obtain ⟨sR, sC, sA, sF, bR, bC, bA, bF⟩ := hi
+      rcases hp with hc | ha | ⟨i, _, hf⟩
+      · refine ⟨.closer, ?_⟩
+        have h1 : σ.closer ≠ .inS := fun h => by have := sC.mpr h; rw [hs] at this; cases this
+        have h2 : σ.closer ≠ .inB := fun h => by have := bC.mpr h; rw [hb] at this; cases this
+        cases h : σ.closer <;> simp_all [next]
+      · refine ⟨.adder, ?_⟩
+        have h1 : σ.adder ≠ .inS := fun h => by have := sA.mpr h; rw [hs] at this; cases this
+        have h2 : σ.adder ≠ .inB := fun h => by have := bA.mpr h; rw [hb] at this; cases this
+        cases h : σ.adder <;> simp_all [next]
+      · refine ⟨.fin i, ?_⟩
+        have h2 : σ.fin i ≠ .inB := fun h => by have := (bF i).mpr h; rw [hb] at this; cases this
+        cases h : σ.fin i <;> simp_all [next]
+
+/-- a finishing task needs the cockpit's lock only: with the redraw goroutine stopped anywhere in its erase (holding
+the spinner's lock, the terminal not answering), a task that finishes goes through -/
+theorem C19_finish_during_erase (σ : St) (i : Nat) (hr : σ.r = .erase ∨ σ.r = .wantB) (hb : σ.b = none)
+    (hf : σ.fin i = .start) :
+    ∃ σ₁ σ₂, next σ (.fin i) = some σ₁ ∧ next σ₁ (.fin i) = some σ₂ ∧ σ₂.fin i = .done ∧ σ₂.r = σ.r := by
+  refine ⟨{ σ with b := some (.fin i), fin := upd σ.fin i .inB },
+          { σ with b := none, fin := upd (upd σ.fin i .inB) i .done }, ?_, ?_, ?_, ?_⟩
+  · simp [next, hf, hb]
+  · simp [next, upd]
+  · simp [upd]
+  · rfl
+
+/-- the seeded variant (a finished task prints / recolours through the spinner while it holds the cockpit's lock):
+the redraw goroutine has erased and wants the cockpit's lock, the task holds it and wants the spinner's - neither moves -/
+theorem C19_witness_finish_through_spinner_deadlocks :
+    let σ := runBad ⟨none, none, .idle, .start⟩ [.redraw, .redraw, .fin 0]
+    nextBad σ .redraw = none ∧ nextBad σ (.fin 0) = none ∧ σ.f ≠ .done := by
+  decide
+
+-- non-vacuity: a run in which a task finishes during a redraw and the layer is closed; everybody ends, the locks are free
+example : let σ := run init [.adder, .adder, .adder, .adder, .redraw, .fin 0, .redraw, .fin 0, .redraw, .redraw, .redraw,
+    .closer, .closer, .closer, .closer]
+    σ.fin 0 = .done ∧ σ.closer = .done ∧ σ.adder = .done ∧ σ.s = none ∧ σ.b = none := by decide
+example : pending (run init [.adder, .redraw]) 1 := Or.inl (by decide)
+
+end CockpitLocks
